@@ -182,6 +182,10 @@ func runC17(c *Ctx) {
 		}
 		names = append(names, string(b))
 	}
+	// characters outside ASCII that fold to, or pass for, letters and digits: none of them is allowed
+	for _, ch := range []string{"\u017f", "\u212a", "\u0131", "\u0130", "\u00e9", "\u00df", "\u0430", "\u03b1", "\uff41", "\uff11", "\u0661", "\u00b2", "\u2460", "\u00ad", "\u200b", "\u2010", "\uff0d", "\uff0e", "\u3002"} {
+		names = append(names, ch+ch+ch, "a"+ch+"c", "ab"+ch, ch+"bc", "bucket.lo"+ch+".data", "abc"+ch+"def", "abc."+ch+ch+ch, "a-"+ch+"-z")
+	}
 	// IP-looking names
 	ips := []string{"100.100.100.100", "192.168.100.200", "255.255.255.255", "127.100.100.101", "111.222.111.222",
 		"256.100.100.100", "999.999.999.999", "010.010.010.010", "100.100.100", "100.100.100.100.100", "100.100.100.abc",
